@@ -39,7 +39,7 @@ protocol and evidence are as designed in section 2. Deviations, all in the direc
 
 ADDITIONS = """### 10.5 What the seeded rounds changed in the checks
 
-One hundred and sixty changes from eight independent rounds (fresh sub-agents, property text only; each later round was told which *kinds* of change the earlier rounds had produced
+One hundred and eighty changes from nine independent rounds (fresh sub-agents, property text only; each later round was told which *kinds* of change the earlier rounds had produced
 and asked for different ones) were confirmed and run. Rounds 1-3 (60 changes): 45 were detected by the quick tier as it stood, two more only by the thorough tier, 13 not
 at all. Round 4 (20 changes; column "before" in `seeded/*-agent4/meta.json: detected_before_strengthening`, measured by running the previous commit of `/verif` against each
 changed tree): 11 detected by the quick tier as it stood, one more only by the thorough tier (C02), 8 not at all (C01, C03, C04, C06, C07, C09, C10, C18).
@@ -135,9 +135,25 @@ Every miss pointed at a *class* of input the generator did not produce, and the 
   an unbound variable that sits in an untaken branch (the unchanged code does exactly that for a variable written directly in a dead arm - the "weakest reading" in the
   check's assumptions), and a partial placed inside an each-body seeing the loop variables (the documentation's "same context as the parent" supports either reading, which is
   why includes are not generated inside loop bodies). Pinning either down would make the check demand more than the statement says.
+* **Round 9 (asked for: Python language traps - late-binding closures, `finally` swallowing, generators consumed twice, `re` flags in the wrong slot, `timedelta.seconds`,
+  `StopIteration` inside `all(map(...))`, `re.sub` replacement templates; two cooperating sites; secondary public API; a guard on the wrong object or granularity; early
+  exits that skip bookkeeping; recovery and retry paths).** As it stood the quick tier detected **18 of 20** - the generators added after rounds 4-8 were what caught them:
+  day-scale clock gaps (C08 `elapsed.seconds`, C09 `.seconds + .microseconds`), 16 exception types incl. StopIteration for raising gates (C19), equal-valued Waste items
+  (C13), the emptied answer set (C16), compatibility / non-ASCII whitespace inside signature instances (C10), arbitrary-Unicode and backslash loop items (C12), 9+ repairs
+  of one rule against the fold / fold_enhanced agreement O5 (C11), the interleaving enumeration of transfer_to (C05), LLM tool-call argument dicts (C03), keyed-aggregate
+  bombs (C01), repeated silencing (C20), the cache-original model (C07), preemption histories vs. the reference wait-for graph (C15), the untouched-resource snapshot (C14),
+  collapse on the last step under low entropy thresholds (C18), debt-bearing transfer receivers (C04), second inspections under tolerance rules (C17). Two were missed:
+  **C06** - every stub voter answered with a dict payload carrying a confidence; a reply whose payload is free text that merely *mentions* "confidence" (what the built-in
+  agents produce) was never cast. Now `shapes`: a quarter of the generated ballots give some voters a payload without a confidence entry (text with / without the word,
+  empty text, None, list, tuple, number, dict without the key - all count with the documented default confidence 1), S9 re-seats payloads with their voters, and 864
+  enumerated cases put every shape on the permits, the blocks or all voters of four small ballots under the 7 strategies and the emergency quorum. **C02** - the reference
+  bound `sum` / `round` / `factorial` to the engine's own `_bounded_<f>` stand-ins (the oracle compared the stand-in with itself; only C01's table audit - which does flag this
+  seed through its wrapper grid - looked at them). The reference now binds such a name to Python's own `<f>` (a refusal by the stand-in is an engine failure, never
+  flagged), sum() over items of mixed kinds with list / tuple / str / number starts is generated, and ten such expressions joined the corner table. Both quiet on the
+  unchanged tree at every seed tried.
 * **One oracle bug found on the way** (no registered run was affected): C02 compared complex NaN results with `==`; now component-wise with NaN == NaN.
 
-After these changes 158 of the 160 seeded changes are detected by the quick tier, C14-agent6 by the thorough tier, and C12-agent8 by neither (see above) (table above; `python3 tools/run_mutants.py --seeded` re-runs them).
+After these changes 178 of the 180 seeded changes are detected by the quick tier, C14-agent6 by the thorough tier, and C12-agent8 by neither (see above) (table above; `python3 tools/run_mutants.py --seeded` re-runs them).
 """
 
 
